@@ -35,10 +35,11 @@ ASSUMPTIONS = [
     "floats are passed to Coq as exact rationals; the model computes in Q, the library in float64 (tolerance 1e-9)",
     "sr requests on an exactly nilpotent draw whose library radius estimate is solver noise (> 1e-12, not reproducible between two "
     "calls on this scipy) are skipped in the correspondence; the oracle decides them (open finding sr:null-radius-misestimated-blown-up)",
-    "requests that make scipy's eigs itself raise on this scipy (sparse n<=2: 'Cannot use scipy.linalg.eig for sparse A'; "
-    "W@ones == 0: 'ARPACK error -9: Starting vector is zero') are counted as environment skips, not as violations",
+    "requests that make scipy's eigs itself raise 'ARPACK error -9: Starting vector is zero' (W@ones == 0, pre-fix trees only) "
+    "are counted as environment skips, not as violations",
     "per-column input_scaling factors are float64 arrays whatever the draw's dtype: the result must keep the requested dtype",
-    "ring / line with explicit weights take the weights' dtype (ambiguous, not flagged: dtype is never requested together with weights)",
+    "every seeded request is made with one of the accepted seed forms (int, np.int64, Generator, RandomState, None after set_seed); "
+    "each call receives a fresh, equal seed object",
 ]
 
 EPS = 1e-8
@@ -72,6 +73,10 @@ def pykw(kw):
     for k, v in kw.items():
         if k == "dtype":
             out[k] = np.dtype(v).type
+        elif k == "weights_int":
+            continue
+        elif k == "weights" and kw.get("weights_int"):
+            out[k] = np.array([int(Fraction(x)) for x in v], dtype=np.int64)
         elif k in ("weights", "input_scaling_vec"):
             out[k] = np.array([fl(x) for x in v])
         elif isinstance(v, str) and k not in ("sparsity_type", "direction", "dist"):
@@ -83,7 +88,11 @@ def pykw(kw):
 
 def env_skip(e):
     s = "%s: %s" % (type(e).__name__, e)
-    return ("Cannot use scipy.linalg.eig for sparse A" in s) or ("Starting vector is zero" in s)
+    return "Starting vector is zero" in s
+
+
+def tiny_sparse_error(e):
+    return "Cannot use scipy.linalg.eig for sparse A" in ("%s: %s" % (type(e).__name__, e))
 
 
 # =========================================================================================== correspondence
@@ -233,16 +242,48 @@ def rand_kw(rng, init, shape, allow_dtype=True):
             kw["sparsity_type"] = rng.choice(["csr", "csc", "coo", "dense"])
         if rng.random() < 0.4:
             k = shape[0] if init == "ring" else max(shape[0] - 1, 0)
-            kw["weights"] = [str(core.dyadic(rng, 8, 2) or Fraction(1, 2)) for _ in range(k)]
-    if allow_dtype and "weights" not in kw and rng.random() < 0.35:
+            if rng.random() < 0.25:
+                kw["weights"] = [str(rng.choice([-3, -2, -1, 1, 2, 3, 4])) for _ in range(k)]
+                kw["weights_int"] = True
+            else:
+                kw["weights"] = [str(core.dyadic(rng, 8, 2) or Fraction(1, 2)) for _ in range(k)]
+    if allow_dtype and rng.random() < 0.35:
         kw["dtype"] = rng.choice(["float32", "float64"])
     return kw
+
+
+SEED_FORMS = ["int", "int", "np.int64", "generator", "randomstate", "global"]
+
+
+def mkseed(form, v):
+    """a fresh seed object of the given accepted form, equal for equal v"""
+    if form == "np.int64":
+        return np.int64(v)
+    if form == "generator":
+        return np.random.default_rng(v)
+    if form == "randomstate":
+        return np.random.RandomState(v)
+    if form == "global":       # seed=None after reservoirpy.set_seed(v)
+        import reservoirpy
+        reservoirpy.set_seed(int(v))
+        return None
+    return int(v)
+
+
+def seed_factory(c):
+    v = c.get("seed")
+    if v is None:
+        return None
+    form = c.get("seed_form", "int")
+    return lambda: mkseed(form, v)
 
 
 def call_init(init, shape, kw, seed=None, **extra):
     m = mg()
     k = pykw(kw)
     k.update(extra)
+    if callable(seed):
+        seed = seed()
     if seed is not None:
         k["seed"] = seed
     args = shape[:1] if init == "fast_spectral_initialization" else shape
@@ -254,12 +295,12 @@ def call_init(init, shape, kw, seed=None, **extra):
 def gen_numeric(rng, kind):
     if kind == "sr":
         init = rng.choice(["uniform", "normal", "bernoulli", "random_sparse", "uniform", "normal", "ones", "ring", "line", "orthogonal"])
-        n = rng.randint(3, 8)
+        n = rng.randint(1, 8)
         kw = rand_kw(rng, init, [n, n], allow_dtype=False)
         if kw.get("degree") == 0:
             kw["degree"] = 1
         return {"kind": "sr", "init": init, "shape": [n, n], "kw": kw, "seed": rng.randint(0, 10 ** 6),
-                "sr": str(abs(core.dyadic(rng, 12, 3)) + Fraction(1, 8))}
+                "seed_form": rng.choice(SEED_FORMS), "sr": str(abs(core.dyadic(rng, 12, 3)) + Fraction(1, 8))}
     if kind == "is":
         init = rng.choice(["uniform", "normal", "bernoulli", "random_sparse", "ones", "zeros", "ring", "line", "orthogonal"])
         if init in ("ring", "line", "orthogonal"):
@@ -296,7 +337,7 @@ def run_numeric(c):
     k = c["kind"]
     if k == "sr":
         from reservoirpy.observables import spectral_radius
-        w0 = call_init(c["init"], c["shape"], c["kw"], c.get("seed"))
+        w0 = call_init(c["init"], c["shape"], c["kw"], seed_factory(c))
         with warnings.catch_warnings():
             warnings.simplefilter("ignore")
             rho = float(spectral_radius(w0))
@@ -305,7 +346,7 @@ def run_numeric(c):
             # the draw is nilpotent and the library's radius is solver noise, different at every call (scipy's ARPACK
             # restarts from random vectors): the value it will divide by can not be observed -> open finding, see oracle
             raise RuntimeError("Starting vector is zero / null-radius estimate is not reproducible (skip)")
-        w = call_init(c["init"], c["shape"], c["kw"], c.get("seed"), sr=fl(c["sr"]))
+        w = call_init(c["init"], c["shape"], c["kw"], seed_factory(c), sr=fl(c["sr"]))
         return {"W0": dense(w0).tolist(), "rho": rho, "W": dense(w).tolist()}
     if k == "is":
         w0 = call_init(c["init"], c["shape"], c["kw"], c.get("seed"))
@@ -432,6 +473,8 @@ def _judge_mutable(c):
     try:
         o = run_mutable(c)
     except Exception as e:
+        if tiny_sparse_error(e):
+            return _viol("sr:tiny-sparse-raises", "%s(%s, sr=...) on a sparse 1x1 / 2x2 matrix raises %r" % (c["init"], c["shape"], e), c)
         return _viol("exception:%s:partial-mutable" % c["init"], "history on a partial storing a %s raises %r" % (c["what"], e), c)
     first = {}
     for k, (op, r, w) in enumerate(o["results"]):
@@ -674,6 +717,7 @@ def gen_oracle_case(rng, i):
     elif len(shape) == 2 and r < 0.8:
         c["input_scaling_vec"] = [str(core.dyadic(rng, 12, 3)) for _ in range(shape[1])]
     c["split"] = rng.randint(0, 10 ** 6)
+    c["seed_form"] = rng.choice(SEED_FORMS)
     return c
 
 
@@ -699,12 +743,46 @@ def dtype_probe_cases():
     return out
 
 
+def fixed_defect_probes():
+    """deterministic inputs of the defects fixed in /repo (4535164 ring/line weights, b04afca tiny sparse sr) and of the
+    open one (nilpotent sparse draws: line with sr)"""
+    P = []
+
+    def add(init, shape, kw, **more):
+        P.append(dict({"kind": "oracle", "init": init, "shape": shape, "kw": kw, "seed": 1, "split": len(P), "seed_form": "int"}, **more))
+    add("ring", [5, 5], {"weights": ["1", "2", "3", "4", "5"], "dtype": "float32"})
+    add("line", [4, 4], {"weights": ["1", "2", "3"], "dtype": "float32", "sparsity_type": "dense"})
+    add("ring", [4, 4], {"weights": ["1", "2", "3", "4"], "weights_int": True}, sr="1/2")
+    add("line", [4, 4], {"weights": ["1", "2", "3"], "weights_int": True, "sparsity_type": "dense"})
+    add("ring", [4, 4], {"weights": ["1", "2", "3", "4"], "sparsity_type": "coo"}, sr="1/2")
+    add("uniform", [2, 2], {"connectivity": 0.5}, sr="9/10")
+    add("bernoulli", [2, 2], {"connectivity": 0.75, "sparsity_type": "csc"}, sr="1/2")
+    add("normal", [1, 1], {"connectivity": 0.9}, sr="1/2")
+    add("ring", [2, 2], {}, sr="1/2")
+    for st in ("csr", "csc"):
+        add("line", [6, 6], {"sparsity_type": st}, sr="1/2")
+    for f in ("np.int64", "generator", "randomstate", "global"):
+        P.append({"kind": "oracle", "init": "uniform", "shape": [6, 6], "kw": {"connectivity": 0.5}, "seed": 2024, "split": 7,
+                  "seed_form": f, "sr": "9/10"})
+    return P
+
+
 def _judge(c):
     """Decide the statement of C13 on one configuration, directly on the real code. Returns a violation dict or None."""
     m = mg()
-    init, shape, kw, seed = c["init"], c["shape"], c["kw"], c.get("seed")
+    init, shape, kw, seed_int = c["init"], c["shape"], c["kw"], c.get("seed")
+    form = c.get("seed_form", "int")
+    seed = seed_factory(c)          # every call below gets a FRESH, equal seed object of the scenario's form
     obj = getattr(m, init)
     kwargs_before = copy.deepcopy(obj._kwargs)
+    if kw.get("weights_int") and "sr" in c:
+        try:
+            call_init(init, shape, kw, seed, sr=fl(c["sr"]))
+        except Exception as e:
+            if tiny_sparse_error(e):
+                return _viol("sr:tiny-sparse-raises", "%s(%s, sr=%s) on a sparse 1x1 / 2x2 matrix raises %r" % (init, shape, c["sr"], e), c)
+            if not env_skip(e):
+                return _viol("sr:integer-weights-raise", "%s(weights=<integer array>, sr=%s) raises %r" % (init, c["sr"], e), c)
     try:
         base = call_init(init, shape, kw, seed)
         base2 = call_init(init, shape, kw, seed)
@@ -717,6 +795,9 @@ def _judge(c):
     if fmt_of(base) != ef:
         return _viol("format", "%s returns storage format %s instead of the requested %s" % (init, fmt_of(base), ef), c, ef, fmt_of(base))
     dt = np.dtype(kw.get("dtype", "float64"))
+    if base.dtype != dt and init in ("ring", "line") and "weights" in kw:
+        return _viol("dtype:weights-ignore-dtype", "%s(weights=..., dtype=%s) returns dtype %s (the weights' own)" % (init, dt, base.dtype),
+                     c, str(dt), str(base.dtype))
     if base.dtype != dt:
         return _viol("dtype:%s" % init, "%s returns dtype %s instead of the requested %s" % (init, base.dtype, dt), c, str(dt), str(base.dtype))
     # ---- purity in the seed (ring / line / zeros / ones are deterministic anyway)
@@ -793,6 +874,8 @@ def _judge(c):
         except Exception as e:
             if env_skip(e):
                 return {"skip": "env", "detail": repr(e)}
+            if tiny_sparse_error(e):
+                return _viol("sr:tiny-sparse-raises", "%s(%s, sr=%r) on a sparse 1x1 / 2x2 draw raises %r" % (init, shape, sr, e), c)
             return _viol("exception:%s:sr" % init, "valid %s(sr=%r) request raises %r" % (init, sr, e), c)
         if tuple(W.shape) != expected_shape(c) or fmt_of(W) != ef or W.dtype != dt:
             return _viol("sr:shape-format-dtype", "sr request changes shape/format/dtype", c, [expected_shape(c), ef, str(dt)],
@@ -867,8 +950,25 @@ def _judge(c):
         if W.dtype != dt:
             return _viol("input_scaling:dtype-changed", "input_scaling (factors of dtype %s) changes dtype %s -> %s" % (dt, dt, W.dtype),
                          c, str(dt), str(W.dtype))
+    # ---- the caller's weights array is an argument: never modified
+    if init in ("ring", "line") and "weights" in kw:
+        k = pykw(kw)
+        wobj = k.pop("weights")
+        wb = wobj.copy()
+        extra = {"sr": fl(c["sr"])} if "sr" in c else {"input_scaling": fl(c["input_scaling"])} if "input_scaling" in c else {}
+        try:
+            with warnings.catch_warnings():
+                warnings.simplefilter("ignore")
+                obj(*shape, weights=wobj, **k, **extra)
+        except Exception:
+            pass
+        if not np.array_equal(wobj, wb):
+            return _viol("purity:argument-array-mutated", "%s(weights=w, %s) modified the caller's array w in place" % (init, extra), c,
+                         wb.tolist(), wobj.tolist())
     # ---- partial application: composes like dict update, never alters the original
-    items = list(kw.items()) + ([("seed", seed)] if seed is not None else [])
+    seed = seed_int
+    items = list(kw.items()) + ([("seed", seed)] if seed is not None and form != "global" else [])
+    items = [it for it in items if it[0] != "weights_int"]
     prng = __import__("random").Random(c.get("split", 0))
     prng.shuffle(items)
     cut = prng.randint(1, len(items)) if items else 0
@@ -880,14 +980,24 @@ def _judge(c):
             k1["seed"], k2["seed"] = (seed + 1), seed
         elif ok == "connectivity":
             k1["connectivity"], k2["connectivity"] = 0.9, ov
+        if kw.get("weights_int"):
+            for d in (k1, k2):
+                if "weights" in d:
+                    d["weights_int"] = True
         try:
-            p1 = obj(**pykw(k1))
-            p2 = p1(**pykw(k2)) if k2 else p1
+            q1, q2 = pykw(k1), pykw(k2)
+            for d in (q1, q2):
+                if "seed" in d:
+                    d["seed"] = mkseed(form, d["seed"])
+            p1 = obj(**q1)
+            p2 = p1(**q2) if q2 else p1
             args = shape[:1] if init == "fast_spectral_initialization" else shape
             with warnings.catch_warnings():
                 warnings.simplefilter("ignore")
+                if form == "global" and seed is not None:
+                    mkseed(form, seed)
                 viap = p2(*args)
-                again = call_init(init, shape, kw, seed)
+                again = call_init(init, shape, kw, seed_factory(c))
         except Exception as e:
             return _viol("exception:%s:partial" % init, "partial application of %s raises %r" % (init, e), c)
         if not same_matrix(viap, base):
@@ -913,7 +1023,7 @@ def judge(case):
 
 def oracle(ctx, scale=1):
     rng = ctx.rng("oracle")
-    cases = [gen_oracle_case(rng, i) for i in range(ctx.n(350, 4000) * scale)] + null_radius_cases() + dtype_probe_cases()
+    cases = [gen_oracle_case(rng, i) for i in range(ctx.n(350, 4000) * scale)] + null_radius_cases() + dtype_probe_cases() + fixed_defect_probes()
     cases += [gen_mutable(rng) for _ in range(ctx.n(80, 600) * scale)]
     out, dist = [], {}
     for c in cases:
